@@ -4,7 +4,7 @@
    duplicate-free suffix-ordered n-grams with adjusted count and pruning mark (KNSpec.v); kn_spec = table followed by
    discounts, uninterpolated probabilities, gammas and interpolation over exact rationals. *)
 From Coq Require Import List NArith ZArith QArith Bool.
-From Kenlm Require Import C05.KNDefs C05.KNSpec C05.KNModel C05.KNWitness C05.KNLex C05.KNAdjustD C05.KNAdjustF C05.KNNgramSet C06.GoodTable C05.KNPipeline.
+From Kenlm Require Import C05.KNDefs C05.KNSpec C05.KNModel C05.KNWitness C05.KNLex C05.KNAdjustD C05.KNAdjustF C05.KNNgramSet C06.GoodTable C05.KNPipeline C05.CollapseModel C05.CollapseProofs.
 Import ListNotations.
 
 (* F1, the unrepaired final flush (fix_stat = false): there is a corpus on which the counts-of-counts collected by the
@@ -59,3 +59,11 @@ Theorem C05_emitted_ngrams_unpruned : forall (c : corpus) n o m k, kn_spec c n o
   (forall j, thr o j = 0%N) -> o_limit o = None ->
   map a_gram (nth (k - 1) (m_orders m) []) = grams (events c) k.
 Proof. exact emitted_ngrams_unpruned. Qed.
+
+(* CollapseStream's block handling (F15L): the unrepaired operator++ touches the slot behind a full last block ... *)
+Theorem C05_collapse_overflow_refuted : In (0, 7)%nat (accesses false [7]%nat) /\ ~ in_bounds [7]%nat (0, 7)%nat.
+Proof. exact collapse_overflow_witness. Qed.
+
+(* ... the repaired one only touches valid slots, for every sequence of block sizes (empty blocks included). *)
+Theorem C05_collapse_accesses_in_bounds : forall vs a, In a (accesses true vs) -> in_bounds vs a.
+Proof. exact collapse_accesses_in_bounds. Qed.
